@@ -255,3 +255,24 @@ Qed.
 (* unlink first, then link: killed between the two calls the name does not exist *)
 Theorem relink_unlink_first_refuted q i s : r_names (rprefix 1 (relink_prog_unlink_first q i) s) q = None.
 Proof. unfold rprefix, relink_prog_unlink_first. cbn [firstn fold_left rstep_apply r_names]. rewrite N.eqb_refl. reflexivity. Qed.
+
+(* ---------- separation: the name keeps its content, gets an inode nobody else has, nobody else changes ---------- *)
+Theorem separate_contents U s q : wf U s -> forall p, content_of (separate s q) p = content_of s p.
+Proof.
+  intros Hwf p. unfold separate. destruct (content_of s q) as [c|] eqn:Eq; [|reflexivity].
+  unfold content_of, replace. cbn [d_names d_store].
+  destruct (N.eqb p q) eqn:Epq.
+  - apply N.eqb_eq in Epq. subst p. cbn [option_map]. rewrite N.eqb_refl. exact (eq_sym Eq).
+  - destruct (d_names s p) as [j|] eqn:Ep; cbn [option_map]; [|reflexivity].
+    destruct (Hwf p j Ep) as [Hlt _].
+    destruct (N.eqb j (d_next s)) eqn:Ej; [apply N.eqb_eq in Ej; subst j; exfalso; exact (N.lt_irrefl _ Hlt) | reflexivity].
+Qed.
+
+Theorem separate_alone U s q c : wf U s -> content_of s q = Some c ->
+  d_names (separate s q) q = Some (d_next s) /\
+  (forall p, p <> q -> d_names (separate s q) p = d_names s p /\ d_names (separate s q) p <> Some (d_next s)).
+Proof.
+  intros Hwf Eq. unfold separate. rewrite Eq. unfold replace. cbn [d_names]. rewrite N.eqb_refl. split; [reflexivity|].
+  intros p Hp. destruct (N.eqb p q) eqn:Epq; [apply N.eqb_eq in Epq; congruence|]. split; [reflexivity|].
+  intro Hs. destruct (Hwf p _ Hs) as [Hlt _]. exact (N.lt_irrefl _ Hlt).
+Qed.
